@@ -266,6 +266,9 @@ impl V {
                         continue;
                     }
                     for ((_, t), (_, p)) in fs.iter().zip(pfs) {
+                        if t.variants().len() >= 2 && !matches!(p, Pat::Bind(_) | Pat::Wild | Pat::Lit(_) | Pat::Str(_) | Pat::Pin(_)) {
+                            return Err("sub-pattern narrows a union-typed FIELD (open finding: later run-time tests expect the narrowed tuple id, the value keeps its construction-site id)".into());
+                        }
                         // a binder's type is the union over the variants: check against each
                         let mut local = seen.clone();
                         self.check_sub(env, p, t, &mut local, in_alt)?;
@@ -286,6 +289,12 @@ impl V {
                     let Ty::Tup(_, fs) = &v else { continue };
                     for (l, p) in pfs {
                         if let Some((_, t)) = fs.iter().find(|f| f.0.as_ref() == Some(l)) {
+                            if t.contains_nil() && p.is_none() {
+                                return Err("partial pattern binds a field that may be nil (open finding F25 family: star / partial binder of a nil field)".into());
+                            }
+                            if t.variants().len() >= 2 && !matches!(p, None | Some(Pat::Bind(_)) | Some(Pat::Wild) | Some(Pat::Lit(_)) | Some(Pat::Str(_)) | Some(Pat::Pin(_))) {
+                                return Err("sub-pattern narrows a union-typed FIELD (open finding: narrowed tuple id)".into());
+                            }
                             match p {
                                 None => {
                                     let mut local = seen.clone();
@@ -311,6 +320,11 @@ impl V {
             Pat::Star(_) => {
                 if ty.variants().len() != 1 {
                     return Err("star pattern on a union".into());
+                }
+                if let Ty::Tup(_, fs) = ty {
+                    if fs.iter().any(|(l, t)| l.is_some() && t.contains_nil()) {
+                        return Err("star pattern binds a field that may be nil (open finding F25 family: star / partial binder of a nil field)".into());
+                    }
                 }
                 if let Some(b) = pat_binds(pat, ty) {
                     for (x, t) in b {
